@@ -395,7 +395,11 @@ func checkC16(w *World) {
 	w.floor(P, "R16.1", 1)
 
 	// R16.2
-	arms := constStringArms(pull)
+	jroles := w.jsonRolesOf(pull)
+	scope := w.pullScopeOf(pull, func(g *ssa.Function) bool {
+		return g == jroles.push || g == jroles.pop || g == jroles.current || jroles.setter[g] != "" || jroles.getter[g] != ""
+	})
+	arms := scope.arms()
 	// push/pop methods by effect
 	kindOf := func(fn *ssa.Function) string {
 		k := ""
@@ -449,17 +453,24 @@ func checkC16(w *World) {
 				}
 			}
 		}
-		if ret == nil || len(ret.Results) != 3 {
+		var retNode, retEnd ssa.Value
+		if ret != nil {
+			var okR bool
+			if retNode, retEnd, okR = scope.effRet(ret); !okR {
+				ret = nil
+			}
+		}
+		if ret == nil {
 			w.check(P, "R16.2", "delimiter "+d, ifi.Pos(), false, "arm has no return")
 			continue
 		}
 		endFlag := ""
-		if c, ok := ret.Results[1].(*ssa.Const); ok && c.Value != nil {
+		if c, ok := retEnd.(*ssa.Const); ok && c.Value != nil {
 			endFlag = c.Value.String()
 		}
 		if want, opening := names[d]; opening {
 			got := ""
-			if mi, ok := ret.Results[0].(*ssa.MakeInterface); ok {
+			if mi, ok := retNode.(*ssa.MakeInterface); ok {
 				backSlice(mi.X, func(v ssa.Value) bool {
 					if s, ok := constString(v); ok && strings.HasPrefix(s, "#") {
 						got = s
@@ -470,8 +481,8 @@ func checkC16(w *World) {
 			ok := pushes == 1 && pops == 0 && endFlag == "false" && got == want
 			w.check(P, "R16.2", "delimiter "+d, ifi.Pos(), ok, fmt.Sprintf("pushes %d, pops %d, end flag %s, element name %q (required: one push, no pop, false, %q)", pushes, pops, endFlag, got, want))
 		} else {
-			ok := pushes == 0 && pops == 1 && endFlag == "true" && isNilConst(ret.Results[0])
-			w.check(P, "R16.2", "delimiter "+d, ifi.Pos(), ok, fmt.Sprintf("pushes %d, pops %d, end flag %s, nil node: %v (required: no push, one pop, true, nil)", pushes, pops, endFlag, isNilConst(ret.Results[0])))
+			ok := pushes == 0 && pops == 1 && endFlag == "true" && isNilConst(retNode)
+			w.check(P, "R16.2", "delimiter "+d, ifi.Pos(), ok, fmt.Sprintf("pushes %d, pops %d, end flag %s, nil node: %v (required: no push, one pop, true, nil)", pushes, pops, endFlag, isNilConst(retNode)))
 		}
 	}
 	// the delimiter arms are taken only for json.Delim tokens (a string value "{" is not a delimiter)
@@ -481,7 +492,7 @@ func checkC16(w *World) {
 			continue
 		}
 		delimGuard := false
-		for _, a := range guardAtoms(ifi.Block()) {
+		for _, a := range scope.guards(ifi.Block()) {
 			if ex, ok := a.V.(*ssa.Extract); ok && ex.Index == 1 && a.Pol {
 				if ta, ok := ex.Tuple.(*ssa.TypeAssert); ok && ta.AssertedType.String() == "encoding/json.Delim" {
 					delimGuard = true
@@ -497,7 +508,7 @@ func checkC16(w *World) {
 
 	// R16.3
 	var render *ssa.Function
-	allInstrs(pull, func(in ssa.Instruction) {
+	scope.all(func(in ssa.Instruction) {
 		if c, ok := in.(*ssa.Call); ok {
 			if sc := staticCallee(c); sc != nil && fnPkgKey(sc) == "parser" && sc.Signature.Results().Len() == 1 && isStringType(sc.Signature.Results().At(0).Type()) && len(sc.Params) == 1 {
 				if _, isIface := sc.Params[0].Type().Underlying().(*types.Interface); isIface {
@@ -603,12 +614,16 @@ func checkC16(w *World) {
 	}
 	// node kinds of the remaining returns
 	kinds := map[string]int{}
-	allInstrs(pull, func(in ssa.Instruction) {
+	scope.all(func(in ssa.Instruction) {
 		ret, ok := in.(*ssa.Return)
-		if !ok || len(ret.Results) != 3 {
+		if !ok {
 			return
 		}
-		if mi, ok := ret.Results[0].(*ssa.MakeInterface); ok {
+		retNode, _, okR := scope.effRet(ret)
+		if !okR {
+			return
+		}
+		if mi, ok := retNode.(*ssa.MakeInterface); ok && mi.Parent() == ret.Parent() {
 			for _, k := range []string{"Attribute", "CharData", "Element"} {
 				if w.implementsNode(mi.X.Type(), k) {
 					kinds[k]++
@@ -644,7 +659,7 @@ func checkC16(w *World) {
 	})
 	w.check(P, "R16.3", "numbers are decoded to float64", pull.Pos(), !useNumber, fmt.Sprintf("Decoder.UseNumber is called: %v (then 1.0, 1e2, 1.50 keep their source spelling instead of the shortest numeral that reads back to the same double)", useNumber))
 	w.floor(P, "R16.3", 5)
-	w.checkJsonScheduling(P, pull)
+	w.checkJsonScheduling(P, pull, scope)
 	w.freshStackStates(P, pull)
 	// the store keeps every event of the stream: an empty string is still a text node
 	w.include(P, "C10", "R10.8")
